@@ -378,7 +378,7 @@ class IMAPConnection:
                         break
                 except AuthenticationError as exc:
                     msg = bytes(str(exc), 'utf-8', 'surrogateescape')
-                    resp = ResponseBad(cmd.tag, msg)
+                    resp = ResponseBad(cmd.tag, msg or b'Invalid response.')
                     await self.write_response(resp)
                 except TimeoutError:
                     resp = ResponseNo(cmd.tag, b'Operation timed out.',
